@@ -23,7 +23,9 @@ pub(crate) fn impl_inverse_uint_scale(n: &BigUint, scale: i64, ctx: &Context) ->
 
     // TODO: Prove that we don't need to arbitrarily limit iterations
     // and that convergence can be calculated
+    verif_loop_guard!(iterations);
     while prev_running_result != running_result {
+        verif_loop_tick!(iterations, InverseNewton, 256);
         // store current value to test for convergence
         prev_running_result = running_result;
 
@@ -51,12 +53,14 @@ fn make_inv_guess(bit_count: u64, scale: i64) -> BigDecimal {
     let initial_guess = magic_factor * exp2(-bit_count);
     if initial_guess.is_finite() && initial_guess != 0.0 {
         if let Ok(mut result) = BigDecimal::try_from(initial_guess) {
+            verif_probe!(Inv_GuessF64);
             result.scale -= scale;
             return result;
         }
     }
 
     // backup guess for out-of-range integers
+    verif_probe!(Inv_GuessFallback);
 
     let approx_scale = bit_count * stdlib::f64::consts::LOG10_2;
     let approx_scale_int = approx_scale.trunc();
